@@ -5,6 +5,7 @@ import (
 	"math/rand"
 	"regexp"
 	"strings"
+	"verif/cfg"
 
 	"verif/gen"
 	"verif/probe"
@@ -94,7 +95,7 @@ func filesKey(u *probe.Unit) string {
 }
 
 func checkC01(c *Ctx) error {
-	c.Rule = "seeded random configurations over the quantifier's dimension table (creation method, value/type forms, getter types incl. value types, must-getter settings, scopes, tags, calls, withers, fields, decorators, literal types incl. non-finite floats, pattern shapes, import forms and alias names, 1-4 input files), each run through the real binary in normal and --stub mode; accepted outputs are checked with gofmt, compiled by the Go compiler against the runtime version pinned in /repo/go.mod, and linked into a probe whose start proves that every init() ran. distinct = distinct (mode, input files); non-trivial = at least one service"
+	c.Rule = "seeded random configurations over the quantifier's dimension table (creation method, value/type forms, getter types incl. value types, must-getter settings, scopes, tags, calls, withers, fields, decorators, literal types incl. non-finite floats, pattern shapes, import forms and alias names, 1-4 input files), each run through the real binary in normal and --stub mode; accepted outputs are checked with gofmt, compiled by the Go compiler against the runtime version pinned in /repo/go.mod, and linked into a probe whose start proves that every init() ran; plus pairs of getters from a pool in which one getter spells another one's Must…/…InContext accessor (accepted pairs have to compile). distinct = distinct (mode, input files); non-trivial = at least one service"
 	c.Assumptions = []string{"the Go compiler and gofmt are the judges", "all symbols exist in the fixture universe (the property's proviso)", "identifiers are distinct legal non-predeclared Go identifiers by construction of the generator"}
 	lab, err := probe.NewLab(c.W)
 	if err != nil {
@@ -107,7 +108,7 @@ func checkC01(c *Ctx) error {
 		o := gen.DefaultOpts()
 		o.MainPkg = i%97 == 5
 		o.HostileAlias = i%5 == 1 // alias names taken from the collision space
-		o.StdPkgs = i%3 == 0 // the packages the template imports for itself are also used by the configuration
+		o.StdPkgs = i%3 == 0      // the packages the template imports for itself are also used by the configuration
 		conf := gen.Behaviour(r, o)
 		var flags []string
 		if i%7 == 3 {
@@ -129,6 +130,36 @@ func checkC01(c *Ctx) error {
 		units = append(units, &probe.Unit{ID: id, Cfg: conf, Files: files, Ops: ops, Previous: prev, Flags: flags})
 		units = append(units, &probe.Unit{ID: id, Cfg: conf, Files: files, Stub: true, Previous: prev, Flags: flags})
 	}
+	// identifier interplay: pairs of getters that are distinct legal identifiers, with and without must-getters, over a pool
+	// in which one getter spells what another one's Must…/…InContext accessor is called. Whatever the tool decides about a
+	// pair, an accepted one has to compile (in both modes)
+	pool := []string{"er", "Muster", "erInContext", "x", "Mustx", "X", "MustX", "get", "Mustget", "MustgetInContext", "GetA", "GetAInContext", "MusterInContext", "Er"}
+	gi := 0
+	for a := range pool {
+		for b := range pool {
+			if a == b || (!c.Thorough() && (a+b)%2 == 1 && a > 3 && b > 3) {
+				continue
+			}
+			for _, must := range []bool{true, false} {
+				conf := &cfg.Config{Meta: cfg.Meta{Pkg: cfg.P("gen"), Imports: []cfg.KS{{K: "pa", V: "fixt/pa"}}}}
+				if !must {
+					conf.Meta.DefaultMustGetter = cfg.P(true) // the must-getters come from the default
+				}
+				sa := cfg.Service{Name: "a", Constructor: cfg.P("pa.New"), Getter: cfg.P(pool[a]), Type: cfg.P("*pa.Obj")}
+				sb := cfg.Service{Name: "b", Constructor: cfg.P("pa.New"), Getter: cfg.P(pool[b])}
+				if must {
+					sa.MustGetter = cfg.P(true)
+				}
+				conf.Services = []cfg.Service{sa, sb}
+				id := fmt.Sprintf("g%05d", gi)
+				gi++
+				files := []probe.File{{Name: "gontainer.yaml", Content: conf.YAML()}}
+				units = append(units, &probe.Unit{ID: id, Cfg: conf, Files: files, Ops: []probe.Op{{Op: "new"}}})
+				units = append(units, &probe.Unit{ID: id, Cfg: conf, Files: files, Stub: true})
+			}
+		}
+	}
+	c.Set("getter_pair_units", gi)
 	if err := runUnits(c, lab, units, false); err != nil {
 		return err
 	}
